@@ -89,6 +89,17 @@ CHECKS = {
              "__enter__, __exit__), singly and in pairs; TLC validates clause order, finally-exactly-once, the escaping "
              "exception, the form's value and outer variables against HyCore.",
         note="break/continue/return inside finally, except*, empty else/finally are not generated."),
+    "C10": dict(
+        engine="forms", level="model_checking", design="5.2, 6/C10",
+        technique="HyForms generates model trees (TLC: exhaustive over heads x atom sequences, random behaviours with nested "
+                  "forms) and specifies the compile pipeline as a state machine; every tree is pushed through hy_compile, "
+                  "compile() and marshal, the recorded events are validated by TLC against the state machine",
+        text="All core macro heads x every sequence of up to 2 atoms of 39 kinds, random argument sequences up to 5 with nested "
+             "forms, and mutated forms from tests/native_tests; accepted end states: marshalled code object, or rejection by "
+             "a HyLanguageError / SyntaxError while Hy or Python compiles.",
+        note="HyMacroExpansionError is a HyLanguageError and is accepted as user-facing even when it wraps an internal "
+             "exception of a core macro (counted in the evidence as wrapped_internal). Heads that run user code at compile "
+             "time (do-mac, eval-and-compile, eval-when-compile, defreader) are excluded."),
     "C11": dict(
         engine="collect", level="model_checking", design="5.2, 6/C11",
         technique="TLC enumerates (context, element sequence) programs of HyCollect with the Python construct each element "
